@@ -30,6 +30,7 @@ func c02(c *eng.Ctx, r *eng.Report) {
 		"R2.10 every dispatch on the kind of a split RLP item in the trie decoder handles Byte, String and List or ends in an error. " +
 		"R2.12 the root a trie reports is the hash of its root node: every value Trie.Hash returns, and every root Trie.Commit returns with a nil error, comes out of hashRoot (which yields the empty-set root for an empty trie) — never a constant or a zero value; " +
 		"R2.13 the node store's read path has no length floor: whether a stored blob is treated as present depends only on the lookup error and on its being nil — the root node is stored under its hash however short its encoding (the force flag of R2.4), so a test like len(enc) < 32 makes small tries unreadable after a reload; " +
+		"R2.16 a trie holds nothing beside the nodes that are hashed: the structs Trie, fullNode, shortNode and nodeFlag have exactly the reviewed fields (root, db, originalRoot and the cache generation; Children/Key/Val and the flags) — any further field is state the root does not commit to (a per-node child counter that the disk decoder fills differently from insert; a lookup memo that one of the update paths forgets to invalidate) and must be reviewed before the claim stands; " +
 		"R2.15 the node decoder accepts every node the encoder can write: decodeShort and decodeFull fail only when an RLP split or a child decode failed — each error they return carries a callee's error, they raise none of their own (a short node's path may be empty: two keys that differ in their last nibble leave two leaves with nothing but the terminator; a branch value may be empty) — the reviewed shape checks live in decodeNode and decodeRef; " +
 		"R2.14 the node decoder and the embedded-child path agree: decodeRef hands decodeNode the remainder of the parent's buffer (the child's own bytes followed by its siblings), so decodeNode may treat bytes after the node's list as an error only if decodeRef trims what it passes to the child's size; " +
 		"R2.11 prefixLen (where insert/delete split a short node) returns a position: every value it returns after having looked at key content derives from the scan position carried round its loop, never from one comparison step alone. " +
@@ -50,6 +51,7 @@ func c02(c *eng.Ctx, r *eng.Report) {
 	c02NoLengthFloor(c, r)
 	c02EmbeddedDecode(c, r)
 	c02DecoderRejectsOnlyRLP(c, r)
+	c02NodeCensus(c, r)
 }
 
 func isNodePtr(t types.Type) (string, bool) {
@@ -1140,4 +1142,36 @@ func carriesCalleeError(v ssa.Value) bool {
 func errorCtor(call *ssa.Call) bool {
 	n := eng.CallName(&call.Call)
 	return n == "fmt.Errorf" || n == "errors.New"
+}
+
+// c02NodeCensus: see R2.16.
+func c02NodeCensus(c *eng.Ctx, r *eng.Report) {
+	const rule = "R2.16"
+	r.Min(rule, 4)
+	reviewed := map[string][]string{
+		"Trie":      {"db", "root", "originalRoot", "cachegen", "cachelimit"},
+		"fullNode":  {"Children", "flags"},
+		"shortNode": {"Key", "Val", "flags"},
+		"nodeFlag":  {"hash", "gen", "dirty"},
+	}
+	for _, tn := range []string{"Trie", "fullNode", "shortNode", "nodeFlag"} {
+		st := c.Struct(triePkg, tn)
+		if !r.Anchor(st != nil, rule, "storage/trie."+tn) {
+			continue
+		}
+		var unknown []string
+		for i := 0; i < st.NumFields(); i++ {
+			f := st.Field(i).Name()
+			ok := false
+			for _, k := range reviewed[tn] {
+				if k == f {
+					ok = true
+				}
+			}
+			if !ok {
+				unknown = append(unknown, f+" "+st.Field(i).Type().String())
+			}
+		}
+		r.Check(len(unknown) == 0, rule, "node-census:"+tn, "", fmt.Sprintf("%d fields, all reviewed", st.NumFields()), "storage/trie."+tn+" has field(s) ["+strings.Join(unknown, "; ")+"] beside the reviewed ones: state that lives next to the nodes is not covered by the root — a child counter kept by insert/delete but filled differently by the decoder makes a reloaded branch collapse (or not collapse) differently from the same trie built in memory, a memo of looked-up values answers for a key that an update path has since removed — so the root, Get and iteration can disagree, or depend on whether the trie went through the database")
+	}
 }
